@@ -196,7 +196,9 @@ def _feed_all(table, stream):
 
 
 def _classify(e):
-    if isinstance(e, UnicodeDecodeError) or (isinstance(e, ValueError) and any(p in str(e) for p in PREMISE)):
+    # (a UnicodeDecodeError is NOT a premise rejection here: every text-bearing record this check generates is ASCII, so a
+    #  decode error can only come from the tool decoding bytes that are not text, e.g. another record's arguments)
+    if isinstance(e, ValueError) and not isinstance(e, UnicodeError) and any(p in str(e) for p in PREMISE):
         return 'premise'
     return 'violation'
 
